@@ -177,6 +177,20 @@ class SymE(object):
             return tuple(self._in(x) for x in v)
         return v
 
+    def use_contract(self, qual, summary):
+        """modular rule: from now on (this path) calls of `qual` are replaced by `summary(E, args, kwargs)`,
+        which must check the callee's precondition with E.ensure and return a value constrained only by the
+        callee's postcondition.  The obligation that proves that contract is named in `uses=` of @ob."""
+        from .core import _NOHOOK
+
+        def hook(ip, func, args, kwargs):
+            return summary(self, list(args), dict(kwargs))
+
+        self.ip.call_hooks[qual] = hook
+
+    def drop_contract(self, qual):
+        self.ip.call_hooks.pop(qual, None)
+
     def list(self, xs):
         return PList([self._in(x) for x in xs])
 
@@ -342,6 +356,14 @@ class SymE(object):
         self.e.axiom(self.cos(a + b) == ca * cb - sa * sb)
         self.e.axiom(self.sin(a + b) == sa * cb + ca * sb)
 
+    def trig_double_all(self):
+        """double-angle instances cos(2x), sin(2x) for every argument x a trig function was applied to so far"""
+        import z3 as _z3
+
+        for key, term in list(self.e.trig_terms.items()):
+            x = SV(term, "real")
+            self.trig_sum(x, x)
+
     def trig_neg(self, a):
         self.e.axiom(self.cos(-a) == self.cos(a))
         self.e.axiom(self.sin(-a) == -self.sin(a))
@@ -381,14 +403,16 @@ class TF(float):
     def __ne__(self, o):
         return not self.__eq__(o)
 
+    # strict comparisons are exact (they are what contracts use in hypotheses / case distinctions),
+    # non-strict ones and equality are tolerant (they are what contracts conclude)
     def __lt__(self, o):
-        return float(self) < float(o) + self._t(o)
+        return float(self) < float(o)
 
     def __le__(self, o):
         return float(self) <= float(o) + self._t(o)
 
     def __gt__(self, o):
-        return float(self) > float(o) - self._t(o)
+        return float(self) > float(o)
 
     def __ge__(self, o):
         return float(self) >= float(o) - self._t(o)
@@ -590,6 +614,12 @@ class ConcE(object):
             object.__setattr__(o, k, self._raw(v))
         return View(o, self)
 
+    def use_contract(self, qual, summary):
+        pass  # the real callee runs
+
+    def drop_contract(self, qual):
+        pass
+
     def list(self, xs):
         return View([self._raw(x) for x in xs], self)
 
@@ -748,6 +778,9 @@ class ConcE(object):
         pass
 
     def trig_sum(self, a, b):
+        pass
+
+    def trig_double_all(self):
         pass
 
     def trig_neg(self, a):
